@@ -69,9 +69,26 @@ Orders(a0, b0) ==
                        s1 == Do(s, p[1]) s2 == Do(s1.s, y)
                        s3 == IF s1.res.r = "ok" THEN Do(s2.s, p[2]) ELSE [s |-> s2.s, res |-> s1.res]
                    IN [rx |-> s1.res, ry |-> s2.res, listing |-> Listing(s3.s)]
+      \* a copy (and the copy half of a rename) READS its source and COMMITS its target at two different
+      \* moments - in the wrappers and in the reference store alike (object_store::memory::InMemory takes
+      \* its lock twice) - so the other call may take effect in between: x commits the value it read
+      \* BEFORE y, into the state AFTER y (two crossing copies can swap two keys).  Each key's own history
+      \* stays linearizable, which is what C07 asks for ("concurrent callers per key").
+      IsCopy(x) == x[1] \in {"copy", "rename"} /\ x[2] # x[3]
+      MidRead(x, y) ==
+        LET present == Exists(s, x[2])
+            v  == s.obj[x[2]].val
+            s2 == Do(s, y)
+            w  == IF ~present THEN [s |-> s2.s, res |-> R("notfound", 0, 0)]
+                  ELSE IF x[4] = "create" /\ Exists(s2.s, x[3]) THEN [s |-> s2.s, res |-> R("exists", 0, 0)]
+                  ELSE [s |-> Commit(s2.s, x[3], v), res |-> R("ok", 0, s2.s.nextTok)]
+            s3 == IF x[1] = "rename" /\ w.res.r = "ok" THEN Remove(w.s, x[2]) ELSE w.s
+        IN [rx |-> w.res, ry |-> s2.res, listing |-> Listing(s3)]
   IN base
      \o (IF Len(Split(a)) = 2 THEN LET m == Mid(a, b) IN <<[ra |-> m.rx, rb |-> m.ry, listing |-> m.listing]>> ELSE <<>>)
      \o (IF Len(Split(b)) = 2 THEN LET m == Mid(b, a) IN <<[ra |-> m.ry, rb |-> m.rx, listing |-> m.listing]>> ELSE <<>>)
+     \o (IF IsCopy(a) THEN LET m == MidRead(a, b) IN <<[ra |-> m.rx, rb |-> m.ry, listing |-> m.listing]>> ELSE <<>>)
+     \o (IF IsCopy(b) THEN LET m == MidRead(b, a) IN <<[ra |-> m.ry, rb |-> m.rx, listing |-> m.listing]>> ELSE <<>>)
 
 Emit ==
   Done =>
